@@ -8,9 +8,8 @@ import Hannibal.Model.Actor
 namespace Hannibal.Driver
 open Hannibal
 
-def tauLabels (s : AState) : List Label :=
-  [.tDeq, .tChanEnd, .tStreamEnd] ++
-  s.timers.flatMap (fun t => [.tTimerArm t.id, .tTimerWake t.id, .tTimerSent t.id])
+def tauLabels (_s : AState) : List Label :=
+  [.tDeq, .tChanEnd, .tStreamEnd]
 
 /-- A frontier element: state + the labels that led to it (reversed). -/
 abbrev Node := AState × List Label
